@@ -195,10 +195,19 @@ def finish_shard(cfg):
             env = dict(os.environ)
             env['PYTHONHASHSEED'] = seedv
             cwd = tmp if order == 'reverse' else ROOT
-            p = subprocess.run(
-                [sys.executable, os.path.join(ROOT, 'props', 'c20_child.py'),
-                 bf], cwd=cwd, env=env, capture_output=True, text=True,
-                timeout=1800)
+            try:
+                p = subprocess.run(
+                    [sys.executable,
+                     os.path.join(ROOT, 'props', 'c20_child.py'), bf],
+                    cwd=cwd, env=env, capture_output=True, text=True,
+                    timeout=3600)
+            except subprocess.TimeoutExpired:
+                # an overloaded machine: nothing can be concluded from
+                # this condition (never a violation)
+                out.append({'key': None, 'classes': [
+                    'child:timeout:hashseed=' + seedv], 'failures': [],
+                    'inconclusive': 'child_process_timeout'})
+                continue
             if p.returncode != 0:
                 raise RuntimeError('C20 child failed: ' + p.stderr[-800:])
             res = json.loads(p.stdout)
